@@ -3,7 +3,7 @@
    and prints. *)
 From Coq Require Import List NArith Bool Arith.
 Import ListNotations.
-Require Import Tokenizer Splice Equiv RoleTable Lines.
+Require Import Tokenizer Splice Equiv RoleTable Lines Shape.
 
 Definition aedit := edit atok.
 
@@ -47,6 +47,25 @@ Fixpoint trim_edits (prev : option aedit) (es : list aedit) : list aedit :=
   end.
 Definition norm_edits (es : list aedit) : list aedit := trim_edits None (sort_edits es).
 
+Definition to_kind (k : rkind) : kind :=
+  match k with RWs => KWs | RCr => KCr | RBlank => KBlank | RComment => KComment | RDText => KDText | RPrep => KPrep | _ => KItem end.
+Definition to_tok (t : atok) : tok := mk (to_kind (a_kind t)) (a_val t).
+
+(* reader shape (Shape.v) of the abstracted list, and freedom from glued code tokens *)
+Definition shape_ok (l : list atok) : bool := shape (map to_tok l).
+Fixpoint glue_free_from (prev : option str) (l : list atok) : bool :=
+  match l with
+  | [] => true
+  | t :: r =>
+      match a_val t with
+      | [] => glue_free_from prev r
+      | _ => if is_code t
+             then (match prev with Some p => negb (junction_bad p (a_val t)) | None => true end) && glue_free_from (Some (a_val t)) r
+             else glue_free_from None r
+      end
+  end.
+Definition glue_free (l : list atok) : bool := glue_free_from None l.
+
 Record verdict := mkverdict {
   v_wf : bool;           (* the (normalised) edits are sorted, disjoint, in range *)
   v_after : list atok;   (* Splice.update applied to the current list *)
@@ -56,7 +75,8 @@ Record verdict := mkverdict {
   v_changed : list nat;  (* lines whose text differs *)
   v_same_count : bool;
   v_cterm : bool; v_wsadj : bool;
-  v_kinds_ok : bool      (* every new token's kind is the RoleTable kind of its role *)
+  v_kinds_ok : bool;     (* every new token's kind is the RoleTable kind of its role *)
+  v_shape : bool; v_glue : bool   (* the list after the step has the reader shape / no glued code tokens *)
 }.
 
 Definition all_edits (l : list atok) (es : list aedit) (ok : list atok -> list atok -> bool) : bool :=
@@ -77,12 +97,10 @@ Definition judge (l : list atok) (es0 : list aedit) : verdict :=
     (all_edits l es c03_layout_ok) (all_edits l es (c03_case_ok always_fold)) (all_edits l es c03_identity_ok)
     (changed_lines l after) (same_line_count l after)
     (comment_terminated after) (no_adjacent_ws after)
-    (forallb (fun e => kinds_ok (e_new e)) es).
+    (forallb (fun e => kinds_ok (e_new e)) es)
+    (shape_ok after) (glue_free after).
 
 (* the two normalisers of rule_list.fix after phase 1, predicted with the Lines.v model *)
-Definition to_kind (k : rkind) : kind :=
-  match k with RWs => KWs | RCr => KCr | RBlank => KBlank | RComment => KComment | RDText => KDText | RPrep => KPrep | _ => KItem end.
-Definition to_tok (t : atok) : tok := mk (to_kind (a_kind t)) (a_val t).
 Definition normalise (l : list atok) : list tok :=
   fix_trailing_whitespace (fix_blank_lines (map to_tok l)).
 Definition coarse (l : list tok) : list (bool * bool * bool * str) :=
